@@ -177,6 +177,8 @@ func main() {
 							rep.Count("parse_results", "ok", 1)
 						case strings.Contains(l, " fail val="):
 							rep.Count("parse_results", "fail", 1)
+						case strings.HasSuffix(l, " budget"):
+							rep.Count("parse_results", "budget", 1)
 						}
 					}
 				}
@@ -481,7 +483,7 @@ func runBatch(grams []*gram, pigeon string, jobs int, keep bool, rep *pvpeg.Repo
 			if !u.ran || u == ref {
 				continue
 			}
-			a, b := ref.output, u.output
+			a, b := dropBudget(ref.output, u.output)
 			what := "results differ"
 			if u.fs.has("-optimize-grammar") {
 				a, b = verdicts(a), verdicts(b)
@@ -493,6 +495,24 @@ func runBatch(grams []*gram, pigeon string, jobs int, keep bool, rep *pvpeg.Repo
 		}
 	}
 	return fails, nil
+}
+
+// dropBudget removes the inputs on which either run hit the expression
+// budget (exponential backtracking; the count of expressions is not the same
+// under every flag set).
+func dropBudget(a, b string) (string, string) {
+	la, lb := strings.Split(a, "\n"), strings.Split(b, "\n")
+	if len(la) != len(lb) {
+		return a, b
+	}
+	var ka, kb []string
+	for i := range la {
+		if strings.HasSuffix(la[i], " budget") || strings.HasSuffix(lb[i], " budget") {
+			continue
+		}
+		ka, kb = append(ka, la[i]), append(kb, lb[i])
+	}
+	return strings.Join(ka, "\n"), strings.Join(kb, "\n")
 }
 
 // verdicts reduces a result listing to input and ok/fail.
